@@ -1218,6 +1218,30 @@ func ruleRepDefType(c *Ctx, r *R) {
 	if nStruct == 0 || nAlias == 0 {
 		r.undecided("typeFromToken", c.Pos(fd), fmt.Sprintf("expected a struct-type path and an alias path (found %d, %d)", nStruct, nAlias))
 	}
+	// methods on a type defined from a struct type go to that struct's method table:
+	// compile("method") looks through the alias before it emits the receiver's GLOBALGET
+	cs, err := c.compileSwitch()
+	if err != nil {
+		r.undecided("method receiver", "-", err.Error())
+		return
+	}
+	if sc := cs.ByLabel["method"]; sc != nil {
+		m := newLayMachine(c)
+		cl, err := m.runCase(cs, "method")
+		if err != nil {
+			r.undecided("method receiver", c.Pos(sc.Clause), err.Error())
+			return
+		}
+		looks := false
+		for _, p := range cl.Paths {
+			if strings.Contains(condStrings(p.St), ".t == typeType") {
+				looks = true
+			}
+		}
+		r.check(looks, "method receiver", c.Pos(sc.Clause), "the receiver type is looked through when it is a defined-type alias", "compile(\"method\") attaches the method to whatever global the receiver name denotes: for `type B T; func (b *B) G()` that global is a type alias, not a struct type, and SETMETHOD aborts the load (interface conversion: Object is nil, not *structT)")
+	} else {
+		r.undecided("method receiver", "-", "no compile-case for method")
+	}
 }
 
 // REP-DEFCONV: in compile("call") a callee that compiles to a single GLOBALGET of a
